@@ -403,6 +403,7 @@ impl MarshalledMessageBody {
         self.sig.clear();
         self.buf.clear();
         self.buf_offset = 0;
+        self.raw_fds.clear();
     }
 
     /// Reserves space for `additional` bytes in the internal buffer. This is useful to reduce the amount of allocations done while marshalling,
@@ -414,18 +415,22 @@ impl MarshalledMessageBody {
     /// Push a Param with the old nested enum/struct approach. This is still supported for the case that in some corner cases
     /// the new trait/type based API does not work.
     pub fn push_old_param(&mut self, p: &crate::params::Param) -> Result<(), MarshalError> {
-        let mut ctx = self.create_ctx();
-        crate::wire::marshal::container::marshal_param(p, &mut ctx)?;
-        p.sig().to_str(self.sig.to_string_mut());
-        Ok(())
+        self.push_mult_helper(|msg: &mut Self| {
+            let mut ctx = msg.create_ctx();
+            crate::wire::marshal::container::marshal_param(p, &mut ctx)?;
+            p.sig().to_str(msg.sig.to_string_mut());
+            Ok(())
+        })
     }
 
     /// Convenience function to call push_old_param on a slice of Param
     pub fn push_old_params(&mut self, ps: &[crate::params::Param]) -> Result<(), MarshalError> {
-        for p in ps {
-            self.push_old_param(p)?;
-        }
-        Ok(())
+        self.push_mult_helper(|msg: &mut Self| {
+            for p in ps {
+                msg.push_old_param(p)?;
+            }
+            Ok(())
+        })
     }
     fn create_ctx(&mut self) -> MarshalContext {
         MarshalContext {
@@ -437,10 +442,12 @@ impl MarshalledMessageBody {
 
     /// Append something that is Marshal to the message body
     pub fn push_param<P: Marshal>(&mut self, p: P) -> Result<(), MarshalError> {
-        let mut ctx = self.create_ctx();
-        p.marshal(&mut ctx)?;
-        P::sig_str(&mut self.sig);
-        Ok(())
+        self.push_mult_helper(move |msg: &mut Self| {
+            let mut ctx = msg.create_ctx();
+            p.marshal(&mut ctx)?;
+            P::sig_str(&mut msg.sig);
+            Ok(())
+        })
     }
 
     /// execute some amount of push calls and if any of them fails, reset the body
@@ -527,17 +534,21 @@ impl MarshalledMessageBody {
 
     /// Append any number of things that have the same type that is Marshal to the message body
     pub fn push_params<P: Marshal>(&mut self, params: &[P]) -> Result<(), MarshalError> {
-        for p in params {
-            self.push_param(p)?;
-        }
-        Ok(())
+        self.push_mult_helper(|msg: &mut Self| {
+            for p in params {
+                msg.push_param(p)?;
+            }
+            Ok(())
+        })
     }
 
     /// Append something that is Marshal to the body but use a dbus Variant in the signature. This is necessary for some APIs
     pub fn push_variant<P: Marshal>(&mut self, p: P) -> Result<(), MarshalError> {
-        self.sig.push_static("v");
-        let mut ctx = self.create_ctx();
-        p.marshal_as_variant(&mut ctx)
+        self.push_mult_helper(move |msg: &mut Self| {
+            msg.sig.push_static("v");
+            let mut ctx = msg.create_ctx();
+            p.marshal_as_variant(&mut ctx)
+        })
     }
     /// Validate the all the marshalled elements of the body.
     pub fn validate(&self) -> Result<(), UnmarshalError> {
